@@ -48,9 +48,21 @@ def _callee_always_stores(prog, f, call, L):
         if getattr(a, "ty", "").endswith("*") and _same_loc(prog, f, a, L) and k < len(t.params):
             t.build()
             par = t.params[k]
-            sts = [i for i in t.insts() if i.op == "store" and strip_casts(i.ops[1]) is par]
-            rets = t.rets()
-            if sts and all(any(t.inst_dominates(s_, r) for s_ in sts) for r in rets):
+            stb = {i.bb for i in t.insts() if i.op == "store" and strip_casts(i.ops[1]) is par}
+            if not stb:
+                continue
+            # no return reachable from the entry without passing a block that stores through the parameter
+            seen, stack, leak = set(), [t.blocks[0]], False
+            while stack:
+                b = stack.pop()
+                if b in seen or b in stb:
+                    continue
+                seen.add(b)
+                if b.term.op == "ret":
+                    leak = True
+                    break
+                stack.extend(b.succs)
+            if not leak:
                 return True
     return False
 
